@@ -156,7 +156,7 @@ template<typename T> struct Sys {
             for (auto &p : h) apply(*a, ma, b, mb, p, false);
             if (o) apply(*a, ma, b, mb, *o, true);
             check_all(*a, ma, b, mb);
-            key = fmt("%d|%zu|%zu|%d|%d", type_id, a->m_size, b.m_size, a->m_array == nullptr, b.m_array == nullptr);
+            key = fmt("%d|%zu|%zu|%d|%d", type_id, a->size(), b.size(), a->array() == nullptr, b.array() == nullptr);      // Array has no state beyond what size() and array() show
             for (int v : ma) key += v == UNKNOWN ? 'u' : 'k';
             ma_out = ma;
         }
